@@ -14,8 +14,42 @@ one on the library's own consistency routine.  Every execution is judged:
 * replacing every sample count by other positive integers changes nothing;
 * a tester set that is not informationally complete raises, never returns;
 * calc_mse_of_true_estimated < 1e-20 for every true object.
+
+History / combination steps (every IC case, own RNG stream ctx.rng(1), so the
+ordinary workload above is unchanged; all answers are judged by the same
+contracts, the statement being "for every tomography, every data vector"):
+
+* twin-tomography   a second tomography of the same class / flag / size of A
+  (testers rotated by a random unitary, every second one through copy(),
+  schedule list passed explicitly and permuted, non-default constructor
+  options with p=1/2) is estimated alternately with the first one, by the
+  shard's estimator and by a fresh one, with the SAME dataset objects (one of
+  them twice in one sequence), first call a single estimate, other sequence
+  lengths, is_computation_time_required given; results of both are read in
+  interleaved order; the library's consistency routine runs on the twin with
+  a copy() of the true object;
+* sibling-other-parametrisation  a tomography with the other value of
+  on_para_eq_constraint on the SAME tester objects is estimated by the same
+  estimator between two uses of the first one; earlier results read again;
+* library-made-data data lists as returned by generate_empi_dists(_sequence)
+  and by calc_prob_dists(estimated_qoperation of an exact-data estimate) (rows
+  are views of one array) are handed to the estimator unchanged;
+* via-pickle        (tomography, estimator) and a result after a pickle round
+  trip (the library pickles them in SimulationResult.to_pickle);
+* transient-tomography  tomographies created, used once and dropped one after
+  the other (address re-use: caches keyed by id());
+* second-call       at the very end, after reset_seed(): every result object
+  obtained in the ordinary part is read again through all four accessors in
+  another order, the first sequence call is repeated on the same objects and
+  must reproduce its estimates, and a single estimate is repeated.
+A third of the primary tomographies is built with non-default constructor
+options (is_estimation_object, eps_proj_physical, eps_truncate_imaginary_part,
+seed_data; never case 0).  A violation that shows only in a history step
+carries the step's name as key suffix (PhaseKeys).
 """
+import contextlib
 import math
+import pickle
 from collections import OrderedDict
 
 import numpy as np
@@ -32,7 +66,14 @@ RULE = ("tomography instances of 4 types (QST, POVMT, QPT, QMPT) x on_para_eq_co
         "huge, spike); a case is distinct by (type, shape, flag, tester kind, tester count, true-object kind, rounded "
         "true parameters) and non-trivial when A has full column rank with b != 0 or over-complete testers or "
         "non-exact data, which every generated case satisfies; non-IC instances (commuting testers: rank-deficient; too "
-        "few testers: underdetermined; one POVM with d^2-1 outcomes: square singular) are separate cases, every 4th")
+        "few testers: underdetermined; one POVM with d^2-1 outcomes: square singular) are separate cases, every 4th; every IC "
+        "case then runs history steps on the same objects: a same-size twin tomography (rotated testers, partly via copy(), "
+        "permuted explicit schedule list, non-default constructor options) and a sibling with the other parametrisation on "
+        "the same tester objects, estimated alternately with the first one by the "
+        "shard's and by a fresh estimator with the same dataset objects; data lists made by the library itself; pickle round "
+        "trips of tomography, estimator and result; tomographies created and dropped in sequence; finally reset_seed(), all "
+        "results read again in another order and the first calls repeated; a third of the primary tomographies has "
+        "non-default constructor options")
 _LE = "quara/protocol/qtomography/standard/linear_estimator.py:LinearEstimator."
 _ER = "quara/protocol/qtomography/standard/standard_qtomography_estimator.py:StandardQTomographyEstimationResult."
 _SQ = "quara/protocol/qtomography/standard/standard_qtomography.py:StandardQTomography."
@@ -144,29 +185,26 @@ class Forward:
         F = np.array([b.reshape(-1) for b in B])
         Ft = np.array([b.T.reshape(-1) for b in B])
         self.G = (Ft @ F.T)  # G[a,b] = Tr[B_a B_b]
-
-    def _pair(self, mvec, svec):
-        return complex(mvec @ self.G @ svec).real
+        # p = m^T G s for an element vector m and a state vector s: rows m^T G per tester POVM, columns G s per tester state
+        self.MG = [None if p is None else np.vstack(p) @ self.G for p in self.povms]
+        self.Gs = [None if s is None else self.G @ s for s in self.states]
 
     def predict(self, raws):
         out = []
         for sch in self.schedules:
             idx = {k: i for k, i in sch}
             if self.tomo == "StandardQst":
-                out += [self._pair(m, raws[0]) for m in self.povms[idx["povm"]]]
+                out.append(self.MG[idx["povm"]] @ raws[0])
             elif self.tomo == "StandardPovmt":
-                s = self.states[idx["state"]]
-                out += [self._pair(m, s) for m in raws]
+                out.append(np.vstack(raws) @ self.Gs[idx["state"]])
             elif self.tomo == "StandardQpt":
-                s = raws[0] @ self.states[idx["state"]]
-                out += [self._pair(m, s) for m in self.povms[idx["povm"]]]
+                out.append(self.MG[idx["povm"]] @ (raws[0] @ self.states[idx["state"]]))
             elif self.tomo == "StandardQmpt":
                 for h in raws:  # mprocess outcome first (it happens first), tester outcome second
-                    s = h @ self.states[idx["state"]]
-                    out += [self._pair(m, s) for m in self.povms[idx["povm"]]]
+                    out.append(self.MG[idx["povm"]] @ (h @ self.states[idx["state"]]))
             else:
                 raise TypeError(self.tomo)
-        return np.array(out, dtype=np.float64)
+        return np.real(np.hstack(out)).astype(np.float64)
 
 
 def lin_info(A):
@@ -215,6 +253,10 @@ class Judge:
         self.fwd = OrderedDict()       # id(qt) -> (qt, Forward)
         self.kappas = []
         self.worst = {}
+        # nested metamorphic re-estimations per observed call: all in the ordinary part (up to 4 datasets alone, 3 count
+        # variants); in the history steps (lite) one dataset alone (first / last in rotation) and one count variant (in rotation)
+        self.lite = False
+        self.ncall = 0
 
     def forward(self, qt):
         c = self.fwd.get(id(qt))
@@ -228,14 +270,47 @@ class Judge:
     def clear_case(self):
         self.exact.clear()
         self.label.clear()
+        self.lite = False
 
-    def cls_of(self, ds):
+    def cls_of(self, ds, qt=None):
         c = self.label.get(id(ds))
-        return c[1] if c is not None and c[0] is ds else "unlabelled"
+        if c is None or c[0] is not ds:
+            return "unlabelled"
+        e = self.exact.get(id(ds))
+        if qt is not None and e is not None and e[0] is ds and not any(o is qt for o in e[2]):
+            return c[1] + ":of-another-tomography"  # exact for its own testers, arbitrary data for this one
+        return c[1]
 
-    def truth_of(self, ds):
+    def set_truth(self, ds, truth, owners):
+        """ds holds exact distributions of the true object for the tomographies in owners (same testers)"""
+        self.exact[id(ds)] = (ds, truth, list(owners))
+
+    def share_truth(self, ds, qt):
         c = self.exact.get(id(ds))
-        return c[1] if c is not None and c[0] is ds else None
+        if c is not None and c[0] is ds:
+            c[2].append(qt)
+
+    def truth_of(self, ds, qt):
+        c = self.exact.get(id(ds))
+        if c is None or c[0] is not ds or not any(o is qt for o in c[2]):
+            return None
+        return c[1]
+
+    def adopt(self, clone, res):
+        """a result object that is a copy (pickle round trip) of a judged one answers for the same estimates"""
+        e = self.registry.get(id(res))
+        if e is not None and e["res"] is res:
+            self.registry[id(clone)] = dict(e, res=clone)
+
+    def forget(self, qt):
+        """drop every reference the monitor holds to a tomography (so that the object can really be freed)"""
+        for k in [k for k, e in self.registry.items() if e["qt"] is qt]:
+            del self.registry[k]
+        for k in [k for k, c in self.fwd.items() if c[0] is qt]:
+            del self.fwd[k]
+        for k in [k for k, c in self.exact.items() if any(o is qt for o in c[2])]:
+            del self.exact[k]
+            self.label.pop(k, None)
 
     def num(self, oracle, err, tp, tf, key=None, info=None):
         """ctx.num + book-keeping of the worst err/tol_pass per oracle (margin)"""
@@ -327,14 +402,14 @@ def install(ctx):
             f = data_vector(ds)
             fs.append(f)
             v = vs[k]
-            cls = J.cls_of(ds)
+            cls = J.cls_of(ds, qt)
             ok_shape = v.ndim == 1 and v.shape[0] == A.shape[1]
             if not ctx.truth("estimate-shape", ok_shape, key=f"{PRE}:estimate-shape:{tag}", info=dict(info0, got=list(v.shape))):
                 continue
             err = normal_eq_error(A, b, f, v, smax)
             J.num("normal-equations", err, tp, tf, key=f"{PRE}:normal-equations:{tag}",
                     info=dict(info0, data=cls, position=("first" if k == 0 else "later")))
-            tr = J.truth_of(ds)
+            tr = J.truth_of(ds, qt)
             if tr is not None:
                 vt = tr["var"]
                 e = float(np.max(np.abs(v - vt))) / max(1.0, float(np.max(np.abs(vt))))
@@ -343,6 +418,11 @@ def install(ctx):
                         info=dict(info0, data=cls, true_kind=tr["kind"], position=("first" if k == 0 else "later")))
         # ---- metamorphic: one at a time, other sample counts (unobserved nested calls)
         idxs = list(range(len(seq))) if len(seq) <= 4 else [0, 1, len(seq) // 2, len(seq) - 1]
+        variants = (("scaled", lambda n, j: 3 * int(n) + 1 + j), ("ones", lambda n, j: 1), ("huge", lambda n, j: 10**9 + 7 * j))
+        if J.lite:
+            J.ncall += 1
+            idxs = [0 if (J.ncall // 3) % 2 else len(seq) - 1]
+            variants = variants[J.ncall % 3:][:1]
         tcf = max(1e-9, 1e-13 * kappa * kappa)
         for k in idxs:
             try:
@@ -359,8 +439,8 @@ def install(ctx):
                 ctx.count("sequence-vs-single:not-bitwise")
                 d = (float(np.max(np.abs(v1 - vs[k]))) / max(1.0, float(np.max(np.abs(vs[k]))))) if v1.shape == vs[k].shape else float("inf")
             J.num("sequence=one-at-a-time", d, 1e-15, tcf, key=f"{PRE}:sequence-differs-from-one-at-a-time:{tag}",
-                    info=dict(info0, position=("first" if k == 0 else "later"), data=J.cls_of(seq[k])))
-        for variant, fn in (("scaled", lambda n, j: 3 * int(n) + 1 + j), ("ones", lambda n, j: 1), ("huge", lambda n, j: 10**9 + 7 * j)):
+                    info=dict(info0, position=("first" if k == 0 else "later"), data=J.cls_of(seq[k], qt)))
+        for variant, fn in variants:
             seq2 = [[(fn(n, j), p) for j, (n, p) in enumerate(ds)] for ds in seq]
             try:
                 r2 = est.calc_estimate_sequence(qt, seq2)
@@ -378,7 +458,7 @@ def install(ctx):
                       info=dict(info0, variant=variant, max_rel_diff=d))
         entry = {"res": result, "qt": qt, "A": A, "b": b, "li": li, "fs": fs, "vs": vs, "seq": list(seq), "tag": tag}
         J.registry[id(result)] = entry
-        while len(J.registry) > 16:
+        while len(J.registry) > 64:
             J.registry.popitem(last=False)
 
     def exc_seq(exc, snap, est, qt, seq, *a, **kw):
@@ -405,7 +485,7 @@ def install(ctx):
         if li["cls"] != "ic":
             return  # judged by the sequence hook
         vs = list(result.estimated_var_sequence)
-        info0 = {"tomo": tag, "kappa": li["kappa"], "data": J.cls_of(ds)}
+        info0 = {"tomo": tag, "kappa": li["kappa"], "data": J.cls_of(ds, qt)}
         if not ctx.truth("calc_estimate:one-estimate", len(vs) == 1, key=f"LinearEstimator.calc_estimate:not-one-estimate:{tag}", info=info0):
             return
         f = data_vector(ds)
@@ -449,7 +529,7 @@ def install(ctx):
         kappa, smax = li["kappa"], li["smax"]
         v, f, ds = e["vs"][k], e["fs"][k], e["seq"][k]
         want_t = e["qt"]._estimated_qoperation_type.__name__
-        info0 = {"tomo": tag, "kappa": kappa, "data": J.cls_of(ds), "position": "first" if k == 0 else "later"}
+        info0 = {"tomo": tag, "kappa": kappa, "data": J.cls_of(ds, e["qt"]), "position": "first" if k == 0 else "later"}
         if not ctx.truth("estimated_qoperation:type", gen.type_of(qop) == want_t, key=f"{RN}.{label}:wrong-type:{tag}",
                          info=dict(info0, got=gen.type_of(qop))):
             return
@@ -464,13 +544,15 @@ def install(ctx):
         scale = max(1.0, smax * float(np.linalg.norm(v)) + float(np.linalg.norm(b)))
         d = float(np.max(np.abs(p - model))) / scale if p.shape == model.shape else float("inf")
         J.num("estimated_qoperation:prediction=A.v+b", d, 1e-12, 1e-8, key=f"{RN}.{label}:object-is-not-the-estimate:{tag}", info=info0)
+        if p.shape != model.shape:
+            return  # (object of another size: reported above; nothing more can be computed)
         r = A.T @ (p - f)
         sc = smax * (smax * float(np.linalg.norm(v)) + float(np.linalg.norm(f)) + float(np.linalg.norm(b)))
         rn = float(np.linalg.norm(r))
         err = 0.0 if rn == 0.0 else (rn / sc if sc > 0 else float("inf"))
         tp, tf = tol_normal(kappa)
         J.num("estimated_qoperation:residual-orthogonal", err, tp, tf, key=f"{RN}.{label}:residual-not-orthogonal:{tag}", info=info0)
-        tr = J.truth_of(ds)
+        tr = J.truth_of(ds, e["qt"])
         if tr is not None:
             rt = tr["raw"]
             rf_ = np.hstack([np.ravel(x) for x in raws])
@@ -628,19 +710,19 @@ def born_exact(tomo, schedules, st_mats, pv_mats, ops):
     return [np.asarray(p, dtype=np.float64) for p in out]
 
 
-def build_qt(tomo, states, povms, m_true, flag, schedules="all"):
+def build_qt(tomo, states, povms, m_true, flag, schedules="all", **opts):
     from quara.protocol.qtomography.standard.standard_povmt import StandardPovmt
     from quara.protocol.qtomography.standard.standard_qmpt import StandardQmpt
     from quara.protocol.qtomography.standard.standard_qpt import StandardQpt
     from quara.protocol.qtomography.standard.standard_qst import StandardQst
 
     if tomo == "qst":
-        return StandardQst(povms, on_para_eq_constraint=flag, schedules=schedules)
+        return StandardQst(povms, on_para_eq_constraint=flag, schedules=schedules, **opts)
     if tomo == "povmt":
-        return StandardPovmt(states, m_true, on_para_eq_constraint=flag, schedules=schedules)
+        return StandardPovmt(states, m_true, on_para_eq_constraint=flag, schedules=schedules, **opts)
     if tomo == "qpt":
-        return StandardQpt(states, povms, on_para_eq_constraint=flag, schedules=schedules)
-    return StandardQmpt(states, povms, m_true, on_para_eq_constraint=flag, schedules=schedules)
+        return StandardQpt(states, povms, on_para_eq_constraint=flag, schedules=schedules, **opts)
+    return StandardQmpt(states, povms, m_true, on_para_eq_constraint=flag, schedules=schedules, **opts)
 
 
 def sample_data(ps, rng, lo=0.0, hi=4.0):
@@ -719,6 +801,329 @@ def non_ic_testers(tomo, d, rng, mode):
     return [ref.rand_density(d, rng) for _ in range(int(rng.integers(1, d + 1)))], [ref.rand_povm(d, m, rng)], m
 
 
+
+# ------------------------------------------------------------ history steps
+
+HISTORY_STEPS = ["twin-tomography", "twin-tomography:explicit-permuted-schedules", "twin-tomography:non-default-ctor-options",
+                 "sibling-other-parametrisation",
+                 "library-made-data:generate_empi_dists", "library-made-data:generate_empi_dists_sequence",
+                 "library-made-data:calc_prob_dists-of-estimate", "via-pickle", "transient-tomography", "second-call"]
+ACCESSORS = ("estimated_var", "estimated_var_sequence", "estimated_qoperation", "estimated_qoperation_sequence")
+LITE_SIZE = 8000  # A.size above which the history steps run their reduced programme (qutrit / two-qubit process tomography)
+
+
+class PhaseKeys:
+    """Key suffixes for history steps.  While a step is active (`with ph.step(name)`) every violation recorded through
+    ctx.num / ctx.truth / ctx.violation - by a hook or by the driver - whose key was NOT already produced by the ordinary
+    (fresh-object) part of the same case gets the suffix ':<name>': such a key can only come from the history.  Within a
+    case a key keeps the suffix of the step that showed it first."""
+
+    def __init__(self, ctx):
+        self.ctx, self.cur, self.fresh, self.first = ctx, None, set(), {}
+        self._orig = ctx.violation
+        ctx.violation = self._violation  # instance attribute: ctx.num / ctx.truth call self.violation
+
+    def _violation(self, key, info=None):
+        if self.cur is None:
+            self.fresh.add(key)
+        elif key not in self.fresh:
+            if isinstance(info, dict):
+                info = dict(info, history_step=self.cur)
+            key = f"{key}:{self.first.setdefault(key, self.cur)}"
+        self._orig(key, info)
+
+    def new_case(self):
+        self.cur, self.fresh, self.first = None, set(), {}
+
+    @contextlib.contextmanager
+    def step(self, name):
+        prev, self.cur = self.cur, name
+        try:
+            yield
+        finally:
+            self.cur = prev
+
+    def restore(self):
+        self.ctx.__dict__.pop("violation", None)
+
+
+def draw_opts(hrng, p):
+    """non-default constructor options of the tomography classes (is_physicality_required=True is rejected by the
+    library itself: its all-zero template object is not physical).  None of them enters the linear estimate."""
+    o = {}
+    if hrng.random() < p:
+        o["is_estimation_object"] = True
+    if hrng.random() < p:
+        o["eps_proj_physical"] = float(10 ** hrng.uniform(-9, -5))
+    if hrng.random() < p:
+        o["eps_truncate_imaginary_part"] = float(10 ** hrng.uniform(-12, -6))
+    if hrng.random() < p:
+        o["seed_data"] = int(hrng.integers(0, 2**31 - 1))
+    if not o:
+        o["is_estimation_object"] = True
+    return o
+
+
+def rotated(mats_list, u):
+    return [u @ np.asarray(m) @ ref.dag(u) for m in mats_list]
+
+
+def ask(ctx, res, tag, order=ACCESSORS):
+    """read a result object through its accessors (each answer is judged by the hooks)"""
+    for acc in order:
+        ok, val = ctx.attempt(getattr, res, acc)
+        if not ok:
+            ctx.violation(f"EstimationResult.{acc}:" + ctx.exc_key(val), {"tomo": tag})
+
+
+def rel_diff(x, y):
+    x, y = np.asarray(x, dtype=np.float64), np.asarray(y, dtype=np.float64)
+    if x.shape != y.shape:
+        return float("inf")
+    return float(np.max(np.abs(x - y))) / max(1.0, float(np.max(np.abs(y)))) if x.size else 0.0
+
+
+def run_history(ctx, hs, J, ph, hrng, est, cc, c):
+    from quara.protocol.qtomography.standard.linear_estimator import LinearEstimator
+
+    tomo, flag, c_sys, d, qt, li = c["tomo"], c["flag"], c["c_sys"], c["d"], c["qt"], c["li"]
+    datasets, classes, truth, ops, true_obj = c["datasets"], c["classes"], c["truth"], c["ops"], c["true_obj"]
+    tag = tomo_tag(qt)
+    lite = li["shape"][0] * li["shape"][1] > LITE_SIZE
+    PRE = "LinearEstimator.calc_estimate_sequence"
+    # tolerance for "the same call again gives the same estimate": both answers satisfy the normal equations of one
+    # full-rank model, so they agree to cond(A) * (normal-equation tolerance); nothing bitwise is demanded
+    rp_tol = (1e-13 * max(10.0, li["kappa"]) * max(1.0, li["kappa"]), max(1e-8, 1e-10 * li["kappa"] * li["kappa"]))
+
+    def label(ds, cls, exact_truth=None, owners=()):
+        J.label[id(ds)] = (ds, cls)
+        if exact_truth is not None:
+            J.set_truth(ds, exact_truth, owners)
+        return ds
+
+    def estimate(e, q, data, many, *a, **kw):
+        ok, r = ctx.attempt(e.calc_estimate_sequence if many else e.calc_estimate, q, data, *a, **kw)
+        return r if ok else None  # an exception on an IC tester set is judged by the exception hook
+
+    def twin_testers(u, copies):
+        st2, pv2 = rotated(c["st_m"], u), [rotated(ms, u) for ms in c["pv_m"]]
+        states2 = [gen.make_state(c_sys, r) for r in st2]
+        povms2 = [gen.make_povm(c_sys, ms) for ms in pv2]
+        if copies:
+            states2 = [x.copy() if k % 2 else x for k, x in enumerate(states2)]
+            povms2 = [x.copy() if k % 2 == 0 else x for k, x in enumerate(povms2)]
+        return st2, pv2, states2, povms2
+
+    def make_twin(testers, sched_arg, opts):
+        st2, pv2, states2, povms2 = testers
+        ok, q2 = ctx.attempt(build_qt, tomo, states2, povms2, c["m_true"], flag, schedules=sched_arg, **opts)
+        if not ok:
+            ctx.violation(f"{tomo}.ctor:" + ctx.exc_key(q2), {"options": sorted(opts), "schedules": "all" if sched_arg == "all" else "explicit"})
+            return None
+        with hs.paused():
+            li2 = lin_info(q2.calc_matA())
+            sch2 = [list(map(tuple, s)) for s in q2.experiment.schedules]
+        if li2["cls"] != "ic" or li2["shape"] != li["shape"]:
+            ctx.count("hist:twin-not-IC-or-other-size:skipped")
+            return None
+        return q2, st2, pv2, sch2
+
+    J.lite = True
+    try:
+        # ------------------------------------------------------------------ twin tomography
+        with ph.step("twin-tomography"):
+            with hs.paused():
+                sch1 = [list(map(tuple, s)) for s in qt.experiment.schedules]
+            sched_arg = "all"
+            if hrng.random() < 0.6:
+                sched_arg = [list(sch1[k]) for k in hrng.permutation(len(sch1))]
+                ctx.count("hist:twin-tomography:explicit-permuted-schedules")
+            opts2 = draw_opts(hrng, 0.5) if hrng.random() < 0.5 else {}
+            if opts2:
+                ctx.count("hist:twin-tomography:non-default-ctor-options")
+            tw = make_twin(twin_testers(ref.rand_unitary(d, hrng), True), sched_arg, opts2)
+            if tw is not None:
+                ctx.count("hist:twin-tomography")
+                qt2, st2, pv2, sch2 = tw
+                true2 = true_obj.copy()
+                ps2 = born_exact(tomo, sch2, st2, pv2, ops)
+                exb2 = label([(int(hrng.integers(1, 10**5)), q) for q in ps2], "exact-born:twin", truth, [qt2])
+                smp2 = label(sample_data(ps2, hrng), "sampled:twin")
+                exc2 = None
+                ok, pc2 = ctx.attempt(qt2.generate_prob_dists_sequence, true2)
+                if not ok:
+                    ctx.violation(f"{tomo}.generate_prob_dists_sequence:" + ctx.exc_key(pc2), {"true_kind": c["true_kind"]})
+                else:
+                    pc2 = [np.asarray(q, dtype=np.float64).ravel() for q in pc2]
+                    if len(pc2) == len(ps2) and all(a.shape == b.shape for a, b in zip(pc2, ps2)):
+                        derr2 = float(np.linalg.norm(np.hstack(pc2) - np.hstack(ps2)))
+                        if derr2 <= 1e-9:  # circuit-vs-Born agreement itself is judged in the ordinary part (and by C08)
+                            exc2 = label([(int(hrng.integers(1, 10**5)), q) for q in pc2], "exact-circuit:twin",
+                                         dict(truth, data_err=derr2), [qt2])
+                smp, few = datasets[1], datasets[3]
+                est2 = LinearEstimator()
+                # first call on the twin: a single estimate; then the first tomography again with the twin's data as
+                # arbitrary data, one dataset object twice; then the twin with the first one's dataset objects
+                r_a = estimate(est, qt2, exb2, False, True)
+                if r_a is not None:
+                    ask(ctx, r_a, tag, ACCESSORS[2:] + ACCESSORS[:2])
+                r_b = estimate(est, qt, [exb2, smp, datasets[0], smp], True)
+                r_c = estimate(est2, qt2, [smp, exc2 if exc2 is not None else exb2, smp2] + ([] if lite else [few]), True,
+                               is_computation_time_required=bool(hrng.random() < 0.5))
+                for r, order in ((r_b, ACCESSORS[::-1]), (r_c, ACCESSORS), (r_a, ACCESSORS), (r_b, ACCESSORS[1:2] + ACCESSORS[3:])):
+                    if r is not None:
+                        ask(ctx, r, tag, order)
+                if not lite:
+                    r_d = estimate(est2, qt, datasets[2], False)
+                    if r_d is not None:
+                        ask(ctx, r_d, tag, ACCESSORS[2:] + ACCESSORS[:2])
+                # the library's consistency routine: the SAME true object, now with the twin
+                ok, val = ctx.attempt(cc.calc_mse_of_true_estimated, true_obj, qt2, est)
+                if not ok:
+                    ctx.violation("consistency_check.calc_mse_of_true_estimated:" + ctx.exc_key(val), {"tomo": tag})
+
+        # ------------------------------------------------------------------ other parametrisation, same tester objects
+        with ph.step("sibling-other-parametrisation"):
+            ok, sib = ctx.attempt(build_qt, tomo, c["states"], c["povms"], c["m_true"], not flag)
+            if not ok:
+                ctx.violation(f"{tomo}.ctor:" + ctx.exc_key(sib), {"testers": "re-used objects", "flag": not flag})
+            else:
+                with hs.paused():
+                    li_s = lin_info(sib.calc_matA())
+                    sch_s = [list(map(tuple, s)) for s in sib.experiment.schedules]
+                if li_s["cls"] != "ic" or sch_s != sch1:
+                    ctx.count("hist:sibling-not-IC:skipped")
+                else:
+                    ctx.count("hist:sibling-other-parametrisation")
+                    truth_s = dict(truth, var=ref_var(gen.type_of(true_obj), raw_list(true_obj), not flag))
+                    ex_s = label([(int(hrng.integers(1, 10**5)), q.copy()) for q in c["ps_born"]], "exact-born:sibling", truth_s, [sib])
+                    r_s = estimate(est, sib, ex_s, False)
+                    if r_s is not None:
+                        ask(ctx, r_s, tag, ACCESSORS[::-1])
+                    # the first tomography and its earlier results after the sibling's estimate
+                    ask(ctx, c["res"], tag, ACCESSORS[2:])
+                    r_f = estimate(est, qt, [datasets[5], datasets[0]], True)
+                    if r_f is not None:
+                        ask(ctx, r_f, tag)
+                    if r_s is not None and not lite:
+                        ask(ctx, r_s, tag, ACCESSORS[2:3])
+
+        # ------------------------------------------------------------------ data lists made by the library
+        with ph.step("library-made-data"):
+            n_shots = int(round(10 ** hrng.uniform(1.0, 4.0)))
+            as_sequence = bool(hrng.random() < 0.5) and not lite
+            if not as_sequence:
+                ok, ed = ctx.attempt(qt.generate_empi_dists, true_obj, n_shots, int(hrng.integers(0, 2**31 - 1)))
+                if ok:
+                    ctx.count("hist:library-made-data:generate_empi_dists")
+                    label(ed, "library-sampled")
+                    r = estimate(est, qt, ed, False)
+                    if r is not None:
+                        ask(ctx, r, tag)
+                else:
+                    ctx.count("hist:library-made-data:generator-raised:" + type(ed).__name__)  # sampling is C14's business
+            else:
+                ns = sorted(int(round(10 ** hrng.uniform(0.5, 3.5))) for _ in range(3))
+                ok, eds = ctx.attempt(qt.generate_empi_dists_sequence, true_obj, ns, int(hrng.integers(0, 2**31 - 1)))
+                if ok:
+                    ctx.count("hist:library-made-data:generate_empi_dists_sequence")
+                    for x in eds:
+                        label(x, "library-sampled")
+                    r = estimate(est, qt, eds, True)
+                    if r is not None:
+                        ask(ctx, r, tag, ACCESSORS[::-1])
+                else:
+                    ctx.count("hist:library-made-data:generator-raised:" + type(eds).__name__)
+            # model distributions of an exact-data estimate, as returned (rows are views of one array)
+            ok = c["single0"] is not None  # the ordinary part's single estimate from the exact Born data
+            if ok:
+                with hs.paused():
+                    ok, q_est = ctx.attempt(getattr, c["single0"], "estimated_qoperation")
+            if ok:
+                ok, pm = ctx.attempt(qt.calc_prob_dists, q_est)
+                if ok:
+                    rows = [np.asarray(x, dtype=np.float64) for x in pm]
+                    if len(rows) == len(c["ps_born"]) and all(a.shape == b.shape for a, b in zip(rows, c["ps_born"])):
+                        derr = float(np.linalg.norm(np.hstack(rows) - np.hstack(c["ps_born"])))
+                        if derr <= 1e-9:  # (the estimate it comes from was judged where it was made)
+                            ctx.count("hist:library-made-data:calc_prob_dists-of-estimate")
+                            dm = label([(int(hrng.integers(1, 10**5)), x) for x in pm], "exact-model-of-estimate",
+                                       dict(truth, data_err=derr), [qt])
+                            r = estimate(est, qt, dm, False)
+                            if r is not None:
+                                ask(ctx, r, tag)
+
+        # ------------------------------------------------------------------ pickle round trips
+        with ph.step("via-pickle"):
+            ok, clone = ctx.attempt(lambda: pickle.loads(pickle.dumps((qt, est, c["res"]))))
+            if not ok:
+                ctx.violation("pickle-round-trip:" + ctx.exc_key(clone), {"tomo": tag})
+            else:
+                ctx.count("hist:via-pickle")
+                qt_p, est_p, res_p = clone
+                for k in (0, 2):
+                    J.share_truth(datasets[k], qt_p)
+                J.adopt(res_p, c["res"])
+                ask(ctx, res_p, tag, ACCESSORS[::-1])
+                r = estimate(est_p, qt_p, [datasets[0], datasets[1], datasets[2]], True)
+                if r is not None:
+                    ask(ctx, r, tag)
+                J.forget(qt_p)
+
+        # ------------------------------------------------------------------ tomographies created and dropped in turn
+        with ph.step("transient-tomography"):
+            n_made = 0
+            # all tester objects first: between dropping one tomography and building the next nothing else is created
+            pending = [twin_testers(ref.rand_unitary(d, hrng), False) for _ in range(2 if lite else 3)]
+            while pending:
+                tw = make_twin(pending.pop(), "all", {})
+                if tw is None:
+                    continue
+                q_t, st_t, pv_t, sch_t = tw
+                ps_t = born_exact(tomo, sch_t, st_t, pv_t, ops)
+                ds_t = label([(1 + n_made, q) for q in ps_t], "exact-born:transient", truth, [q_t])
+                r = estimate(est, q_t, ds_t, False)
+                if r is not None:
+                    ask(ctx, r, tag, ACCESSORS[2:3])
+                n_made += 1
+                J.forget(q_t)
+                del r, q_t, tw, ds_t  # nothing refers to this tomography any more: its address is free for the next one
+            if n_made >= 2:
+                ctx.count("hist:transient-tomography")
+
+        # ------------------------------------------------------------------ everything again, at the end
+        with ph.step("second-call"):
+            ctx.count("hist:second-call")
+            ok, val = ctx.attempt(qt.reset_seed, int(hrng.integers(0, 2**31 - 1)))
+            if not ok:
+                ctx.violation(f"{tomo}.reset_seed:" + ctx.exc_key(val), {"tomo": tag})
+            # results of the ordinary part, read again after all the later estimates (other order, last one first)
+            for r in c["held"][::-1]:
+                ask(ctx, r, tag, ACCESSORS[3:] + ACCESSORS[:3])
+            with hs.paused():
+                first = [np.array(v, dtype=np.float64, copy=True) for v in c["res"].estimated_var_sequence]
+            # the first call again, on the same objects
+            r2 = estimate(est, qt, c["seq"], True)
+            if r2 is not None:
+                ask(ctx, r2, tag)
+                with hs.paused():
+                    again = [np.asarray(v, dtype=np.float64) for v in r2.estimated_var_sequence]
+                dd = max(rel_diff(x, y) for x, y in zip(again, first)) if len(again) == len(first) else float("inf")
+                J.num("repeated-call:same-estimates", dd, rp_tol[0], rp_tol[1],
+                      key=f"{PRE}:repeated-call-gives-other-estimates:{tag}", info={"tomo": tag, "kappa": li["kappa"]})
+            k = int(hrng.integers(0, len(c["seq"])))
+            r3 = estimate(est, qt, c["seq"][k], False)
+            if r3 is not None:
+                ask(ctx, r3, tag, ACCESSORS[::-1])
+                with hs.paused():
+                    v3 = np.asarray(r3.estimated_var, dtype=np.float64)
+                J.num("repeated-call:same-estimates", rel_diff(v3, first[k]), rp_tol[0], rp_tol[1],
+                      key=f"LinearEstimator.calc_estimate:repeated-call-gives-other-estimate-than-the-sequence:{tag}",
+                      info={"tomo": tag, "kappa": li["kappa"], "data": J.cls_of(c["seq"][k], qt)})
+    finally:
+        J.lite = False
+
+
 def run_shard(ctx):
     from quara.protocol.qtomography.standard.linear_estimator import LinearEstimator
     from quara.simulation import consistency_check as cc
@@ -729,6 +1134,7 @@ def run_shard(ctx):
     c_sys = gen.make_csys(dims)
     d = c_sys.dim
     hs, J = install(ctx)
+    ph = PhaseKeys(ctx)
     est = LinearEstimator()
     uses_states = tomo != "qst"
     uses_povms = tomo != "povmt"
@@ -784,12 +1190,17 @@ def run_shard(ctx):
             if shape == "S2" and tk_p != "projective":
                 m_req = int(rng.integers(3, 5))
             qt = None
+            hrng = ctx.rng(1)  # history steps and constructor options: own stream, the ordinary workload is unchanged
+            ph.new_case()
+            opts = draw_opts(hrng, 0.5) if (i > 0 and hrng.random() < 1.0 / 3.0) else {}
+            if opts:
+                ctx.count("cfg:non-default-ctor-options")
             for attempt in range(8):
                 st_m = draw_tester_states(d, rng, tk_s, extra_s) if uses_states else []
                 pv_m, m_pv = draw_tester_povms(d, rng, tk_p, extra_p, m_req) if uses_povms else ([], 0)
                 states = [gen.make_state(c_sys, r) for r in st_m]
                 povms = [gen.make_povm(c_sys, ms) for ms in pv_m]
-                ok, qt = ctx.attempt(build_qt, tomo, states, povms, m_true, flag)
+                ok, qt = ctx.attempt(build_qt, tomo, states, povms, m_true, flag, **opts)
                 if not ok:
                     break
                 with hs.paused():
@@ -834,7 +1245,7 @@ def run_shard(ctx):
                 classes.append(cls)
                 J.label[id(ds)] = (ds, cls)
                 if exact:
-                    J.exact[id(ds)] = (ds, truth_circ if cls == "exact-circuit" else truth)
+                    J.set_truth(ds, truth_circ if cls == "exact-circuit" else truth, [qt])
 
             cnt = lambda: int(rng.integers(1, 10**5))  # noqa: E731
             add([(cnt(), q) for q in ps_born], "exact-born", exact=True)
@@ -850,6 +1261,8 @@ def run_shard(ctx):
             ok, res = ctx.attempt(est.calc_estimate_sequence, qt, seq, is_computation_time_required=bool(rng.random() < 0.3))
             if not ok:
                 continue  # judged by the exception hook
+            single0 = None
+            held = [res]  # result objects of the ordinary part, read again at the end of the history steps
             for acc in ("estimated_var", "estimated_var_sequence", "estimated_qoperation", "estimated_qoperation_sequence"):
                 ok2, val = ctx.attempt(getattr, res, acc)
                 if not ok2:
@@ -859,6 +1272,9 @@ def run_shard(ctx):
                 ok, r1 = ctx.attempt(est.calc_estimate, qt, datasets[j])
                 if not ok:
                     continue
+                held.append(r1)
+                if j == 0:
+                    single0 = r1
                 for acc in ("estimated_var", "estimated_qoperation", "estimated_var_sequence", "estimated_qoperation_sequence"):
                     ok2, val = ctx.attempt(getattr, r1, acc)
                     if not ok2:
@@ -869,6 +1285,7 @@ def run_shard(ctx):
                 J.label[id(ds3)] = (ds3, J.cls_of(ds))
             ok, res3 = ctx.attempt(est.calc_estimate_sequence, qt, seq3)
             if ok:
+                held.append(res3)
                 with hs.paused():
                     a = [np.asarray(v) for v in res.estimated_var_sequence]
                     b = [np.asarray(v) for v in res3.estimated_var_sequence]
@@ -880,6 +1297,12 @@ def run_shard(ctx):
             ok, val = ctx.attempt(cc.calc_mse_of_true_estimated, true_obj, qt, est)
             if not ok:
                 ctx.violation("consistency_check.calc_mse_of_true_estimated:" + ctx.exc_key(val), {"tomo": tomo_tag(qt)})
+            # ---- history / combination steps on the same objects
+            run_history(ctx, hs, J, ph, hrng, est, cc, dict(
+                tomo=tomo, flag=flag, c_sys=c_sys, d=d, qt=qt, li=li, st_m=st_m, pv_m=pv_m, states=states, povms=povms,
+                m_true=m_true, ops=ops,
+                true_obj=true_obj, truth=truth, ps_born=ps_born, datasets=datasets, classes=classes, seq=seq, res=res,
+                held=held, single0=single0, true_kind=true_kind))
             ctx.nontrivial("ic", tomo, shape, flag, tk_p if uses_povms else "-", tk_s if uses_states else "-",
                            len(states), len(povms), m_true, true_kind, truth["raw"])
             if i < 3:
@@ -889,6 +1312,7 @@ def run_shard(ctx):
                             "datasets": [classes[j] for j in order]})
     finally:
         hs.uninstall()
+        ph.restore()
     ctx.extra["hook_counts"] = hs.counts
     ctx.extra["worst_ratios"] = J.worst
     ctx.extra["kappa_max"] = max(J.kappas) if J.kappas else None
@@ -912,3 +1336,7 @@ def finalize(merged, ctx):
     for k, v in sorted(worst.items()):
         ctx.count(f"margin:worst-err-as-permille-of-tol_pass:{k}", int(math.ceil(1000 * v)))
     ctx.count("largest-cond(A)-judged", int(math.ceil(kmax)))
+    c = merged["counters"]
+    for need in ["cfg:non-default-ctor-options"] + ["hist:" + n for n in HISTORY_STEPS]:
+        if c.get(need, 0) == 0:
+            ctx.mark_inconclusive(f"workload never produced: {need}")
